@@ -12,3 +12,5 @@ import CnbVerif.Props.C07
 #print axioms CnbVerif.C07.store_decodes_to_constructed
 #print axioms CnbVerif.C07.execd_decodes_to_constructed
 #print axioms CnbVerif.C07.package_decodes_to_constructed
+#print axioms CnbVerif.C07.package_uri_verbatim_partial
+#print axioms CnbVerif.C07.package_uri_respelled_counterexample
